@@ -236,6 +236,32 @@ def pax_hostile_archives(r, n):
     return out
 
 
+def fixed_hostile_archives():
+    """deterministic members of the `numbers` family (in every run, whatever the seed): base-256 fields that do not fit into 64 bits in
+    an otherwise well-formed old GNU sparse member, and in a plain member's size / mtime / uid fields"""
+    out = []
+    body = b"0123456789abcdef" * 32          # 512 bytes
+    tail = tarmodel._header(b"after", 0o644, 0, 0, 10, 0, b"0") + tarmodel._pad(b"x" * 10) + b"\0" * 1024
+
+    def fix(h):
+        h[148:156] = b" " * 8
+        h[148:156] = b"%06o\0 " % sum(h)
+        return bytes(h)
+
+    wide = [b"\x80" + b"\xff" * 11, b"\x80\0\0\x01" + b"\0" * 8, b"\x80\x01" + b"\0" * 10, b"\x80\0\0\0\x80" + b"\0" * 7, b"\xff" + b"\0" * 11, b"\xff\x7f" + b"\xff" * 10]
+    for i, w in enumerate(wide):
+        t = bytearray(126)
+        t[0:12] = b"00000000000\0"; t[12:24] = b"00000001000\0"            # one data segment: offset 0, 512 bytes
+        t[97:109] = w                                                      # realsize
+        h = bytearray(tarmodel._header(b"sparse%d" % i, 0o644, 0, 0, len(body), 0, b"S", magic=b"ustar  \0", sparse_tail=bytes(t)))
+        out.append(("gnu-sparse-old", "realsize field %r" % w, fix(h) + tarmodel._pad(body) + tail))
+        for off, ln, what in ((124, 12, "size"), (136, 12, "mtime"), (108, 8, "uid")):
+            h = bytearray(tarmodel._header(b"plain%d" % i, 0o644, 0, 0, 0, 0, b"0", magic=b"ustar  \0"))
+            h[off:off + ln] = (w + b"\xff" * 12)[:ln] if ln == 12 else w[:1] + w[5:12]
+            out.append(("header-" + what, "%s field %r" % (what, bytes(h[off:off + ln])), fix(h) + tail))
+    return out
+
+
 def hardlink_graphs(r):
     """small hostile link graphs as tar members (order matters: the resolver starts from the most recent link)"""
     nodes = [b"a", b"b", b"c"]
@@ -268,7 +294,7 @@ def tar_work(a):
     try:
         with Scratch("c07") as cd:
             if mode == "numbers":
-                muts = pax_hostile_archives(r, 60)
+                muts = pax_hostile_archives(r, 60) + fixed_hostile_archives()
             elif mode == "links":
                 muts = []
                 for combo in hardlink_graphs(r)[:40]:
